@@ -61,6 +61,6 @@ def chainOpsFrom (i : Nat) : List ChainStep → List Op
   | [] => []
   | s :: rest => .derive i s.op.name [s.lam] "Any" :: chainOpsFrom (i + 1) rest
 
-def chainOps (steps : List ChainStep) : List Op := .dataset "Any" :: chainOpsFrom 0 steps
+def chainOps (steps : List ChainStep) : List Op := .dataset "Any" [] :: chainOpsFrom 0 steps
 
 end Fadl
